@@ -4,7 +4,7 @@ from .. import poolgen
 F5_POOL = "pool fl=atomic N=2 origin=0 ; alloc alloc dealloc ; alloc ; alloc ; S 0 0 0 0 0 0 0 0 0 0 1 1 0 0 0 0 2 2 2 1 1 0 1 2 0 1 2"
 
 class C13(Prop):
-    pid = "C13"; prop_file = ["C13.v", "C01Z.v", "C13Z.v"]
+    pid = "C13"; prop_file = ["C13.v", "C13P.v", "C01Z.v", "C13Z.v"]
     rule = ("cases: 2-4 threads with alloc / dealloc (by id and by ref; a thread gives back the id it allocated last) programs on OgreArrayPoolAllocator<u32,_,N>, N in {2,4,8}, "
             "both free lists (AtomicMove, FullSyncMove), profiles mixed / exhaust / churn, random bursty schedule; non-trivial = context switch inside another thread's operation AND a failed allocation or an empty-handed dealloc")
     trusted_base = ["client discipline (a thread deallocates only an id it owns) is enforced by the case generator and assumed by the ownership reading of C13_owned_id_not_handed_out_again; it is not formalised as a theorem hypothesis"]
